@@ -14,6 +14,7 @@ from hypothesis import strategies as st
 
 from vlib import c03_corpus as corpus
 from vlib import c03_mutate as mut
+from vlib import c03_registry as registry
 from vlib import c03_target as target
 from vlib.refwire import build
 from vlib.refwire import strategies as ws
@@ -48,8 +49,8 @@ ASSUMPTIONS = [
     'a NOTIFICATION code/subcode is "defined" when it is in RFC 4271/4486/5492/6608/7313/8538/9234/9384 or one of the extensions exabgp documents (2/8-10, 7/2); subcode 0 is accepted for every code',
     'which code a malformed input gets is not checked (C08/C10)',
     f'work bound: Python call events <= {target.COST_A} + {target.COST_B} * len(body) (qa corpus fits 650 + 60 * len; at least 10x slack on both) and stack depth <= {target.DEPTH_MAX} '
-    '(deepest qa message 23 frames: room for about 95 attributes of per-attribute recursion); a decode is abandoned at six times the bound (calls + builtin calls); '
-    'wall time is not an oracle, except a 120 s watchdog that reports a decode which makes no call at all and never returns',
+    '(deepest qa message 23 frames: room for about 95 attributes of per-attribute recursion); a decode is abandoned at six times the bound; '
+    'wall time is not an oracle, except a 60 s watchdog that reports a decode which makes no call at all and never returns',
     'valid-unusual with repeated unknown attribute codes: RFC 7606 3.g keeps the first and discards the rest, RFC 4271 6.3 allowed 3/1; both are accepted, any other refusal is a violation',
     'an exception other than Notify inside Message.unpack would be answered 1/0 by the catch-all of read_message (signature prefix decode:), one raised while the '
     'decoded message is rendered escapes read_message (prefix render:); both break the property',
@@ -75,7 +76,7 @@ def addpath_for(neg: int):
 # ---------------------------------------------------------------------------- the shared check
 
 
-WATCHDOG_S = 120
+WATCHDOG_S = 60
 
 
 class _Stuck(BaseException):
@@ -86,17 +87,18 @@ def _alarm(_signo, _frame):
     raise _Stuck()
 
 
-def guarded(msg_type: int, body: bytes, neg: int) -> tuple:
+def guarded(msg_type: int, body: bytes, neg: int, metered: bool = True) -> tuple:
     """target.measured under a last-resort watchdog: the work bound abandons a loop that makes calls, this one a loop that makes none"""
     import signal
 
     previous = signal.signal(signal.SIGALRM, _alarm)
     signal.setitimer(signal.ITIMER_REAL, WATCHDOG_S)
     try:
+        if not metered:
+            return target.decode_and_force(msg_type, body, target.negotiated_for(neg)), None
         return target.measured(msg_type, body, target.negotiated_for(neg))
     except _Stuck:
-        sys.setprofile(None)
-        return ('violation', 'no-termination:watchdog', f'still decoding after {WATCHDOG_S} s'), target.Meter()
+        return ('violation', 'no-termination:watchdog', f'still decoding after {WATCHDOG_S} s'), None
     finally:
         signal.setitimer(signal.ITIMER_REAL, 0)
         signal.signal(signal.SIGALRM, previous)
@@ -107,7 +109,8 @@ def judge(case: dict, expect_ok: bool = False, accept: tuple = ()) -> dict:
     neg = int(case['neg']) % NNEG
     body = bytes.fromhex(case['hex']) if 'hex' in case else case['_body']
     body = body[: target.msg_size(neg) - 19]
-    outcome, meter = guarded(msg_type, body, neg)
+    metered = case.get('meter', True) is not False
+    outcome, meter = guarded(msg_type, body, neg, metered)
     classes = [f'type:{msg_type if msg_type in (1, 2, 3, 4, 5, 6) else "unknown"}', f'neg:{target.NEG_NAMES[neg]}']
     shown = body.hex() if len(body) <= 600 else f'{body[:300].hex()}...({len(body)} bytes)'
     where = f'type {msg_type} neg {neg}:{target.NEG_NAMES[neg]} body {shown}'
@@ -115,7 +118,7 @@ def judge(case: dict, expect_ok: bool = False, accept: tuple = ()) -> dict:
         if target.tolerated(outcome[1]):
             return {'nontrivial': False, 'classes': classes + [f'tolerated:{outcome[1]}']}
         raise Violation(outcome[1], f'{outcome[2]} for {where}')
-    bad = target.cost_violation(meter, len(body))
+    bad = target.cost_violation(meter, len(body)) if meter is not None else None
     if bad:
         # a first execution pays for lazy imports: measure again before believing it
         outcome, meter = guarded(msg_type, body, neg)
@@ -134,6 +137,9 @@ def judge(case: dict, expect_ok: bool = False, accept: tuple = ()) -> dict:
     else:
         label = f'ok:{outcome[1]}'
     classes.append(label)
+    if meter is None:
+        classes.append('unmetered')
+        return {'nontrivial': outcome[0] == 'ok', 'classes': classes}
     classes.append('inner-objects:' + ('0' if meter.inner == 0 else '1-9' if meter.inner < 10 else '10-99' if meter.inner < 100 else '100+'))
     classes.append('depth:' + ('<=25' if meter.max_depth <= 25 else '<=60' if meter.max_depth <= 60 else '>60'))
     return {'nontrivial': outcome[0] == 'ok' or meter.inner >= 1, 'classes': classes, 'meter': meter, 'outcome': outcome}
@@ -166,28 +172,32 @@ def ok_negs() -> dict:
     if not _OK_NEGS:
         for k, m in enumerate(corpus.MESSAGES):
             body = bytes.fromhex(m['hex'])
-            oks = [i for i in range(NNEG) if target.decode_and_force(m['type'], body, target.negotiated_for(i))[0] == 'ok']
+            # measured(): the work bound abandons a decoder that does not terminate (a mutated tree must not hang the strategy)
+            oks = [i for i in range(NNEG) if target.measured(m['type'], body, target.negotiated_for(i))[0][0] == 'ok']
             _OK_NEGS[k] = oks or list(range(NNEG))
     return _OK_NEGS
 
 
-_EXOTIC: list = []
+_SHAPES: list = []
 
 
-def exotic_first() -> list:
-    """indices of the qa messages, the ones that carry something refwire cannot build listed eight times"""
-    if not _EXOTIC:
+def qa_shapes() -> list:
+    """the qa messages grouped by structural shape (message type, MP family, kinds of TLV present): a draw picks a shape first, so the
+    131 plain IPv4 announcements do not outweigh the one MVPN or BGP-LS message"""
+    if not _SHAPES:
+        groups: dict = {}
         for k, m in enumerate(corpus.MESSAGES):
             body = bytes.fromhex(m['hex'])
-            kinds = {n['kind'] for n, _ in mut.flatten(mut.tree_for(m['type'], body))}
-            plain = {'withdrawn-field', 'attributes-field', 'nlri-field', 'attribute', 'attribute-2', 'attribute-14', 'attribute-15', 'attribute-16', 'as-segment', 'prefix', 'community',
-                     'ext-community', 'large-community', 'cluster-id', 'mp-nexthop', 'mp-nlri-field'}  # fmt: skip
-            special = bool(kinds - plain) or m['type'] != 2
-            if m['type'] == 2 and not special:
-                # an MP attribute for a family outside the IP ones (its routes are not located by the tree when their layout is opaque)
-                special = any(c in body for c in (b'\x00\x01\x85', b'\x00\x01\x86', b'\x00\x02\x85', b'\x00\x02\x86', b'\x00\x19\x41', b'\x00\x19\x46', b'\x40\x04\x47', b'\x00\x01\x49', b'\x00\x02\x49'))
-            _EXOTIC.extend([k] * (8 if special else 1))
-    return _EXOTIC
+            nodes = mut.flatten(mut.tree_for(m['type'], body))
+            kinds = sorted({n['kind'] for n, _ in nodes})
+            fams = sorted({body[n['cstart'] : n['cstart'] + 3].hex() for n, _ in nodes if n['kind'] in ('attribute-14', 'attribute-15')})
+            # the type field of every route and sub-TLV: an MVPN type 5 route is not the same shape as a type 6 one
+            typed = {'evpn-route': 1, 'mvpn-route': 1, 'mup-route': 3, 'bgpls-nlri': 2, 'tunnel-tlv': 2, 'tunnel-sub-tlv': 1, 'prefix-sid-tlv': 1, 'srv6-sub-tlv': 1,
+                     'bgpls-attr-tlv': 2, 'bgpls-tlv': 2, 'capability': 1, 'segment': 1}  # fmt: skip
+            types = sorted({(n['kind'], body[n['start'] : n['start'] + typed[n['kind']]].hex()) for n, _ in nodes if n['kind'] in typed})
+            groups.setdefault((m['type'], tuple(fams), tuple(kinds), tuple(types)), []).append(k)
+        _SHAPES.extend(groups[key] for key in sorted(groups))
+    return _SHAPES
 
 
 KNOWN_CAPS = [1, 2, 5, 6, 64, 65, 68, 69, 70, 71, 73, 75, 77, 128, 131]
@@ -262,7 +272,7 @@ def base_messages(draw):
         desc = draw(ws.updates(session_of(neg)))
         return src, 2, neg, ws.render_update(desc)
     if src == 'qa':
-        k = draw(st.sampled_from(exotic_first()))
+        k = draw(st.sampled_from(draw(st.sampled_from(qa_shapes()))))
         m = corpus.MESSAGES[k]
         neg = draw(st.sampled_from(ok_negs()[k]))
         return src, m['type'], neg, bytes.fromhex(m['hex'])
@@ -278,9 +288,13 @@ def mutated_cases(draw):
     spec = session_of(neg)
     root = mut.tree_for(msg_type, body, spec['asn4'], addpath_for(neg))
     flat = mut.flatten(root) or [(root, [])]
-    # uniform over the nodes, the nested ones (sub-TLVs, routes inside MP attributes) counted three times
-    pick = [i for i, (n, chain) in enumerate(flat) for _ in range(3 if len(chain) >= 2 else 1) if n['end'] > n['start'] or n['lf'] is not None]
-    node, ancestors = flat[draw(st.sampled_from(pick or [0]))]
+    by_kind: dict = {}
+    for i, (n, _chain) in enumerate(flat):
+        if n['end'] > n['start'] or n['lf'] is not None:
+            by_kind.setdefault(n['kind'], []).append(i)
+    # a kind of TLV first, then one of its instances: the single MVPN route weighs as much as the dozen plain attributes around it
+    kinds = sorted(by_kind) or ['']
+    node, ancestors = flat[draw(st.sampled_from(by_kind.get(draw(st.sampled_from(kinds)), [0])))]
     ops = [o for o in mut.OPS if node['lf'] is not None or not o.startswith('len-')]
     op = draw(st.sampled_from(ops))
     a = draw(st.integers(0, 65535))
@@ -513,6 +527,51 @@ def bytes_cases(draw):
     return {'type': t, 'neg': neg, 'hex': out[: target.msg_size(neg) - 19].hex(), 'mode': mode}
 
 
+# ---------------------------------------------------------------------------- single-byte sweep (enumerated)
+
+
+def sweep_cases() -> list:
+    """every byte of one qa message per structural shape set to 0, 1, 0x7f, 0x80, 0xff, +1, -1 (a nested length or count is one byte
+    somewhere in the route or sub-TLV: this reaches each of them without knowing the layout); under the first set that decodes the original"""
+    out = []
+    thorough = _tier() == 'thorough'
+    for group in qa_shapes():
+        k = group[0]
+        m = corpus.MESSAGES[k]
+        body = bytes.fromhex(m['hex'])
+        if len(body) > 600:
+            continue
+        neg = ok_negs()[k][0]
+        for pos in range(len(body)):
+            old = body[pos]
+            values = {0, 1, 0x7F, 0x80, 0xFF, (old + 1) & 255, (old - 1) & 255, old ^ 0x80, (old * 2) & 255, old // 2} if thorough else {0, 0x80, 0xFF, (old + 1) & 255, (old - 1) & 255}
+            for value in sorted(values - {old}):
+                # the work bound is measured on one case in four (a changed byte does not add TLVs); the others run without the meter
+                out.append({'type': m['type'], 'neg': neg, 'hex': (body[:pos] + bytes([value]) + body[pos + 1 :]).hex(), 'mode': 'sweep', 'meter': len(out) % 4 == 0})
+        # every TLV cut down to its first 1, 2, 3, ... bytes with all the lengths around it repaired: each decoder sees a value too short for its type
+        seen = set()
+        for node, chain in mut.flatten(mut.tree_for(m['type'], body, session_of(neg)['asn4'], addpath_for(neg))):
+            size = node['end'] - node['cstart']
+            if node['lf'] is None or size < 2:
+                continue
+            keeps = range(0, size) if thorough else sorted({1, 2, 3, 4, 5, 6, 8, size // 2, size - 1} & set(range(1, size)))
+            for keep in keeps:
+                for op in ('truncate-repaired', 'truncate-inner') if thorough else ('truncate-repaired',):
+                    cut = mut.apply(body, node, chain, op, keep, 0)
+                    if cut not in seen:
+                        seen.add(cut)
+                        out.append({'type': m['type'], 'neg': neg, 'hex': cut.hex(), 'mode': 'sweep-' + op, 'meter': len(out) % 4 == 0})
+    return out
+
+
+def registry_cases() -> list:
+    """every type code of every decoder registry with short values of every length (vlib/c03_registry.py); one case in eight is metered"""
+    cases = registry.cases(target.NEG_INDEX, _tier() == 'thorough')
+    for i, c in enumerate(cases):
+        c['meter'] = i % 8 == 0
+    return cases
+
+
 # ---------------------------------------------------------------------------- atheris campaign
 
 FUZZ_TARGET = os.path.join(HERE, 'fuzz', 'fuzz_decode.py')
@@ -541,7 +600,7 @@ def run_campaign(seed: int, runs: int) -> dict:
         made = subprocess.run([sys.executable, FUZZ_TARGET, '--write-seeds', seeds], env=env, cwd=HERE, stdout=subprocess.PIPE, stderr=subprocess.PIPE, timeout=300)
         if made.returncode != 0:
             raise RuntimeError(f'cannot write the seed corpus: {made.stderr.decode()[-1500:]}')
-        cmd = [sys.executable, FUZZ_TARGET, seeds, f'-runs={runs}', f'-seed={seed}', '-max_len=4096', '-timeout=60', f'-artifact_prefix={work}/']
+        cmd = [sys.executable, FUZZ_TARGET, seeds, f'-runs={runs}', f'-seed={seed}', '-max_len=4096', '-timeout=25', f'-artifact_prefix={work}/']
         proc = subprocess.run(cmd, env=env, cwd=HERE, stdout=subprocess.PIPE, stderr=subprocess.STDOUT, timeout=max(600, runs // 100))
         text = proc.stdout.decode(errors='replace')
         found, stats = [], {}
@@ -551,6 +610,19 @@ def run_campaign(seed: int, runs: int) -> dict:
             elif line.startswith('C03-STATS '):
                 stats = json.loads(line[len('C03-STATS ') :])
         done = f'Done {runs} runs' in text or 'DONE' in text
+        if 'libFuzzer: timeout' in text:
+            # one input kept the decoder busy for 25 s: libFuzzer saved it and stopped
+            for name in sorted(os.listdir(work)):
+                if name.startswith('timeout-'):
+                    with open(os.path.join(work, name), 'rb') as fh:
+                        from fuzz.fuzz_decode import split_input
+
+                        t, n, b = split_input(fh.read(), NNEG)
+                    found.append({'signature': 'no-termination:libfuzzer-timeout', 'file': name, 'known': False, 'message': 'the decoder did not return within 25 s',
+                                  'case': {'type': t, 'neg': n, 'hex': b[: target.msg_size(n) - 19].hex()}, 'noreplay': True})  # fmt: skip
+            done = True
+            stats = stats or {'execs': 0}
+            proc = subprocess.CompletedProcess(cmd, 0)
         if proc.returncode != 0 or not done or not stats:
             raise RuntimeError(f'fuzz target ended badly (rc={proc.returncode}): {text[-2000:]}')
         result = {'findings': found, 'stats': stats}
@@ -572,6 +644,9 @@ def check_campaign(case: dict) -> dict:
     fresh = []
     for f in result['findings']:
         sig = f['signature']
+        if f.get('noreplay'):
+            fresh.append(f)
+            continue
         # every saved finding must replay through the bytes engine with the same root cause
         try:
             check_bytes(dict(f['case']))
@@ -598,16 +673,21 @@ def campaign_cases(runs: int):
     return lambda: st.integers(0, 7).map(lambda i: {'seed': 1000 + i, 'runs': runs})
 
 
-def _tier_runs() -> int:
+def _tier() -> str:
     argv = sys.argv
-    tier = argv[argv.index('--tier') + 1] if '--tier' in argv and argv.index('--tier') + 1 < len(argv) else os.environ.get('VERIF_TIER', 'quick')
-    return 400000 if tier == 'thorough' else 5000
+    return argv[argv.index('--tier') + 1] if '--tier' in argv and argv.index('--tier') + 1 < len(argv) else os.environ.get('VERIF_TIER', 'quick')
+
+
+def _tier_runs() -> int:
+    return 400000 if _tier() == 'thorough' else 5000
 
 
 ENGINES = [
-    Engine('mutated', mutated_cases, check_bytes, quick=1500, thorough=40000, batch=500, quick_s=40.0, thorough_s=900.0),
-    Engine('valid-unusual', unusual_cases, check_unusual, quick=40, thorough=600, batch=40, fixed_cases=unusual_fixed, quick_s=30.0, thorough_s=600.0),
-    Engine('bytes', bytes_cases, check_bytes, quick=1000, thorough=30000, batch=500, quick_s=25.0, thorough_s=600.0),
+    Engine('mutated', mutated_cases, check_bytes, quick=800, thorough=40000, batch=500, quick_s=40.0, thorough_s=900.0),
+    Engine('valid-unusual', unusual_cases, check_unusual, quick=20, thorough=600, batch=40, fixed_cases=unusual_fixed, quick_s=30.0, thorough_s=600.0),
+    Engine('sweep', None, check_bytes, quick=0, thorough=0, fixed_cases=sweep_cases),
+    Engine('registry', None, check_bytes, quick=0, thorough=0, fixed_cases=registry_cases),
+    Engine('bytes', bytes_cases, check_bytes, quick=600, thorough=30000, batch=500, quick_s=25.0, thorough_s=600.0),
     # quick: 4 shards x 1 campaign x 5000 runs = 20 000 executions; thorough: 8 shards x 2 campaigns x 400 000 runs (about 5 minutes each)
     Engine('atheris', campaign_cases(_tier_runs()), check_campaign, quick=1, thorough=2, batch=1, quick_s=60.0, thorough_s=1500.0),
 ]
